@@ -129,6 +129,7 @@ def run(ctx):
     sq = [(wellcond(2), Qm(2, 1)), (wellcond(6), Qm(6, 1)), (wellcond(3), Qm(3, 1)), (wellcond(5), Qm(5, 1))]
     spA = utils.SparseQuaternionMatrix(*[sparse.csr_matrix(c) for c in np.moveaxis(quaternion.as_float_array(tall[2]), -1, 0)], tall[2].shape)
     L = 2 if ctx.quick() else 3
+    deep = [(Qm(4, 3), [3, 2, 4]), (Qm(5, 2), [2, 3, 5]), (Qm(3, 3), [3, 3])]   # (samples x input_dim, layer widths)
     classes = [
         ('NewtonSchulzPseudoinverse', lambda: solver.NewtonSchulzPseudoinverse(gamma=0.5, max_iter=6), lambda o, p: o.compute(p), tall[:3] + wide[:1] + [spA]),
         ('NewtonSchulzPseudoinverse[no-residuals]', lambda: solver.NewtonSchulzPseudoinverse(gamma=1.0, max_iter=6, compute_residuals=False), lambda o, p: o.compute(p), tall[:2] + wide[:2]),
@@ -141,6 +142,8 @@ def run(ctx):
         ('HybridRSPNewtonSchulz', lambda: solver.HybridRSPNewtonSchulz(r=2, p=2, T=2, max_iter=4, seed=1), lambda o, p: o.compute(p), tall[:3]),
         ('CGNEQSolver', lambda: solver.CGNEQSolver(max_iter=5), lambda o, p: o.compute(p), tall),
         ('CGNEQSolver[prec]', lambda: solver.CGNEQSolver(max_iter=4, preconditioner_rank=1, seed=2), lambda o, p: o.compute(p), tall[:3]),
+        ('DeepLinearNewtonSchulz', lambda: solver.DeepLinearNewtonSchulz(max_iter=2), lambda o, p: o.compute(p[0], p[1]), deep),
+        ('DeepLinearNewtonSchulz[random_init]', lambda: solver.DeepLinearNewtonSchulz(max_iter=2, random_init=True), lambda o, p: o.compute(p[0], p[1]), deep),
     ]
     # constructors that take seed=: with a seed in the configuration (0 included) two fresh objects built in different states of the global
     # generator, and called straight away, return the same bits
